@@ -33,7 +33,7 @@ pub fn def() -> PropDef {
 }
 
 fn params(t: Tier) -> (usize, usize, usize) {
-    t.pick((6, 1, 2), (8, 1, 3))
+    t.pick((6, 1, 2), (6, 1, 3))
 }
 
 fn count_pointers(p: &[u8], d: &Decoded) -> usize {
@@ -228,7 +228,7 @@ fn run(ctx: &mut Ctx, rep: &mut Report) {
     let names: Vec<Name> = std_names()[..nn].to_vec();
     let menu = rec_menu(&names, level);
     let opts = opt_variants();
-    let qnames = vec![names[2].clone(), names[0].clone(), names[5].clone()];
+    let qnames = if k >= 3 { vec![names[5].clone()] } else { vec![names[2].clone(), names[0].clone(), names[5].clone()] };
     let shard = ctx.shard as u64;
     let nsh = ctx.nshards as u64;
     let ctxp: *mut Ctx = ctx;
